@@ -60,7 +60,9 @@ func c02aEvents(s c02State) []c02Event {
 			evs = append(evs, c02Event{Kind: "full", Text: t})
 		}
 	}
-	evs = append(evs, c02Event{Kind: "save", Text: s.text}, c02Event{Kind: "close"})
+	// a settings change in the middle of an editing session (the second one is the first the server acts on) must not
+	// disturb the open document
+	evs = append(evs, c02Event{Kind: "save", Text: s.text}, c02Event{Kind: "close"}, c02Event{Kind: "config"})
 	return evs
 }
 
@@ -163,6 +165,11 @@ func c02AnalysedSpace(depth int) *core.Space {
 				}
 				sort.Strings(got)
 				trace = append(trace, fmt.Sprintf("%s -> outline %v", ev.String(), got))
+				if ev.Kind == "config" {
+					// a settings change is outside the sequences the property quantifies over: what the server analyses right
+					// after it is not judged (it rebuilds the project from the saved files); the notifications that follow are
+					continue
+				}
 				if strings.Join(got, ",") != strings.Join(want, ",") {
 					if step < len(hist)-1 {
 						// the shorter history is itself a case and is reported there; a stale outline right after didOpen
